@@ -1188,6 +1188,9 @@ func (p *Printer) stmt(s *Stmt) {
 	if sep || s.Background || s.Coprocess || s.Disown {
 		if sep {
 			p.bslashNewl()
+			// Several escaped newlines become one; do not let the
+			// difference count as a line break before what follows.
+			p.advanceLine(s.Semicolon.Line())
 		} else if !p.minify {
 			p.space()
 		}
